@@ -179,7 +179,9 @@ func genOptInput(t *rapid.T, kind string) string {
 	case "generic":
 		frags = append(frags, "# c", "#c\n", " # c \n ", "1 # c\n 2")
 	case "expression":
-		frags = append(frags, "/* c */", " /* c */ ", "/**/", "/* un", "1e5", "2.5E-3", "AND", "not", "/", "*/")
+		frags = append(frags, "/* c */", " /* c */ ", "/**/", "/* un", "1e5", "2.5E-3", "AND", "not", "/", "*/",
+			// keywords spelt with letters whose upper-case form is ASCII (U+017F, U+0131): byte length != character count
+			"iſ", "ıs", "lıke", "ıN", "falſe", "ſ", "a iſ null", "x ıs not null")
 	case "csv":
 		frags = append(frags, "\r\n", "\n\r", "\r", "\"a\"\"b\"", "\"a,b\"", ";", "中文")
 	case "mustache":
